@@ -237,7 +237,7 @@ func Run(c *core.Ctx) int {
 	c.Parallel(len(jobs2), func(k int) {
 		j := jobs2[k]
 		g := pkgs[j.pi]
-		opt := core.CompileOpt{Tags: g.TagSets[j.ti], Out: fmt.Sprintf("out-m%d.js", k), CLI: j.mode == "cli", Env: []string{"GOPATH=" + gopath}}
+		opt := core.CompileOpt{Tags: g.TagSets[j.ti], Out: fmt.Sprintf("out-m%d.js", k), CLI: j.mode == "cli", TagSep: []string{" ", ",", ", "}[k%3], Env: []string{"GOPATH=" + gopath}}
 		res := c.CompileJS(dirs[j.pi], opt)
 		if res.TimedOut {
 			c.Inconclusive("compile-timeout")
